@@ -7,6 +7,7 @@ from ..r_escape import rule_yield_then_mutate, rule_borrowed_pool
 from ..r_hygiene import rule_hygiene as _rule_hygiene
 from ..r_construct import rule_protocol_dunders as _rule_dunders
 from ..r_round8 import rule_stereo_gates as _r8_gates
+from ..r_round9 import rule_scope_abandons_permutation as _r9_scope
 
 LEVEL = 'other'
 
@@ -22,3 +23,4 @@ def run(ck, repo):
     _rule_hygiene(ck, repo, 'C07.H-dataflow-hygiene', 'C07')
     _rule_dunders(ck, repo, 'C07.D0-container-protocols', ['chython.containers.molecule:MoleculeContainer', 'chython.containers.query:QueryContainer', 'chython.containers.cgr:CGRContainer'])
     _r8_gates(ck, repo, 'C07.D4-stereo-gates')
+    _r9_scope(ck, repo, 'C07.D5-scope-abandons-permutation')
